@@ -313,9 +313,18 @@ func (e *Enc) wrap(fr *Frame, exact T, t types.Type, at ssa.Instruction, alt str
 		e.s.Assume(Imp(fr.curReach, in))
 		return exact
 	}
+	// exact two's-complement wrap-around when the mathematical result does not fit
+	m := IntBig(pow2(uint(r.bits)))
+	var wrapped T
+	if r.signed {
+		h := IntBig(pow2(uint(r.bits - 1)))
+		wrapped = Sub(App(SInt, "mod", Add(exact, h), m), h)
+	} else {
+		wrapped = App(SInt, "mod", exact, m)
+	}
 	c := e.s.Const("w:"+valName(at), SInt)
 	e.s.Assume(inRange(c, r))
-	e.s.Assume(Imp(in, Eq(c, exact)))
+	e.s.Assume(Eq(c, Ite(in, exact, wrapped)))
 	return c
 }
 
